@@ -12,7 +12,7 @@ BIN=/verif/.build/cargo-cov/debug/pcv-harness
 cd /verif/lean/PCV && flock /verif/.build/lake.lock lake build pcvdrv >/dev/null 2>&1; cp .lake/build/bin/pcvdrv $OUT/pcvdrv
 for p in C01 C02 C03 C04 C05 C06 C07 C08 C09 C10 C11 C12 C13 C14 C15 C16 C17 C19; do
   mkdir -p $OUT/w-$p
-  LLVM_PROFILE_FILE="$OUT/prof/$p-%p-%m.profraw" $BIN $p --tier quick --seed 1 --out $OUT/$p.json --drv $OUT/pcvdrv --workdir $OUT/w-$p >/dev/null 2>&1 || echo "$p exited non-zero"
+  RAYON_NUM_THREADS=2 LLVM_PROFILE_FILE="$OUT/prof/$p-%p-%m.profraw" $BIN $p --tier quick --seed 1 --out $OUT/$p.json --drv $OUT/pcvdrv --workdir $OUT/w-$p >/dev/null 2>&1 || echo "$p exited non-zero"
 done
 $TOOLS/llvm-profdata merge -sparse $OUT/prof/*.profraw -o $OUT/all.profdata
 $TOOLS/llvm-cov report $BIN -instr-profile=$OUT/all.profdata --ignore-filename-regex='(registry|rustc|harness/src|bench-templates)' > $OUT/report.txt 2>&1
